@@ -244,6 +244,16 @@ func (y *sys) projSet(u *unstructured.Unstructured) string {
 		keep = append(keep, x)
 	}
 	_ = unstructured.SetNestedSlice(c.Object, keep, "status", "conditions")
+	// uids are identities of incarnations (history), like the uids in owner references (projRefs):
+	// status.remotePhases is compared by phase object name
+	if rps, ok, _ := unstructured.NestedSlice(c.Object, "status", "remotePhases"); ok {
+		for _, x := range rps {
+			if m, ok := x.(map[string]interface{}); ok {
+				m["uid"] = ""
+			}
+		}
+		_ = unstructured.SetNestedSlice(c.Object, rps, "status", "remotePhases")
+	}
 	return y.setStr(c)
 }
 
